@@ -965,3 +965,9 @@ Lemma exit_inside_accepted : wf w_exit_inside = true /\ oracle w_exit_inside (ru
 Proof. vm_compute. auto. Qed.
 Lemma prio_heap_accepted : wf w_prio_heap = true /\ oracle w_prio_heap (run w_prio_heap) = true.
 Proof. vm_compute. auto. Qed.
+
+(* an answer that is not a Circuit -- whatever it is, truthy or falsy -- is reported and sends nothing, in ANY state *)
+Lemma not_a_circuit_reported : forall s sid v, issue s sid (AKNotCirc v) = (s, [EReported]).
+Proof. reflexivity. Qed.
+Lemma not_a_circuit_invalid : forall tt v, decide tt (AKNotCirc v) = DInvalid.
+Proof. reflexivity. Qed.
